@@ -11,6 +11,9 @@ pub enum Spec {
     Eval { cfg: Config, scope: (u8, u8, u8, u8), extra: usize },
     /// parse -> to_string -> rank_pairs -> orphan_card_pairs
     Parser { text: String },
+    /// misuse that fails: an evaluator whose board already holds a turn card; building the iterator
+    /// panics (before and after any change) - what matters is that nobody else notices
+    BadBoard { cards: Vec<u8> },
 }
 
 pub enum State {
@@ -41,6 +44,7 @@ impl Actor {
         let state = match spec {
             Spec::Eval { .. } => State::EvalFresh,
             Spec::Parser { .. } => State::ParserFresh,
+            Spec::BadBoard { .. } => State::ParserFresh,
         };
         Actor { spec: spec.clone(), state, done_nones: 0 }
     }
@@ -65,6 +69,23 @@ impl Actor {
                 };
                 self.state = State::EvalRunning(it);
                 o
+            }
+            (State::ParserFresh, Spec::BadBoard { cards }) => {
+                let cards = cards.clone();
+                let r = crate::report::catch(move || {
+                    let mut b = [None; 5];
+                    for (i, c) in cards.iter().enumerate().take(5) {
+                        b[i] = Some(card(*c));
+                    }
+                    let range: HandRange = "AsKs".parse().unwrap();
+                    let ev = espada::evaluator::FlopExhaustiveEvaluator::new(&b, &vec![range]);
+                    ev.into_iter().next().is_some()
+                });
+                self.state = State::ParserFresh;
+                match r {
+                    Ok(x) => format!("bad board accepted, first next() is_some = {}", x),
+                    Err(_) => "bad board refused by a panic".to_string(),
+                }
             }
             (State::ParserFresh, Spec::Parser { text }) => {
                 let r: HandRange = text.parse().unwrap();
@@ -119,6 +140,9 @@ pub fn solo(spec: &Spec) -> Vec<String> {
                 out.push(a.step());
             }
         }
+        Spec::BadBoard { .. } => {
+            out.push(a.step());
+        }
     }
     out
 }
@@ -138,6 +162,7 @@ pub fn describe(spec: &Spec) -> String {
     match spec {
         Spec::Eval { cfg, scope, .. } => format!("eval[{} scope={:?}]", cfg.key(), scope),
         Spec::Parser { text } => format!("parser[{}]", text),
+        Spec::BadBoard { cards } => format!("bad-board[{}]", cards_text(cards)),
     }
 }
 
@@ -175,6 +200,8 @@ pub fn groups() -> Vec<(&'static str, Vec<Spec>)> {
         // in the process must not decide what the others expand to
         ("spellings-1", vec![Spec::Parser { text: "AKo".into() }, Spec::Parser { text: "KAs:0.5".into() }]),
         ("spellings-2", vec![Spec::Parser { text: "Q9s".into() }, Spec::Parser { text: "9Qo:0.25".into() }, Spec::Parser { text: "9Qs".into() }]),
+        // an evaluator that fails (board with four cards) beside sound ones: its failure must stay its own
+        ("after-a-failure", vec![Spec::BadBoard { cards: vec![8, 26, 49, 3] }, eval_spec(f1, &[r1], (0, 1, 0, 3), 1), eval_spec(f2, &[r1], (0, 1, 0, 3), 1)]),
         // three evaluators, 6 operations each
         ("three-evaluators", vec![eval_spec(f1, &[r1], (0, 1, 0, 4), 1), eval_spec(f1, &[r1], (0, 1, 0, 4), 1), eval_spec(f2, &[r3], (47, 48, 48, 49), 3)]),
         // four evaluators, 3-4 operations each
